@@ -7,6 +7,7 @@ import (
 	"fmt"
 	"os"
 	"path/filepath"
+	"regexp"
 	"sort"
 	"strings"
 	"time"
@@ -151,10 +152,14 @@ type Known struct {
 	Property string `json:"property"`
 	Rule     string `json:"rule"`
 	Key      string `json:"key"`
-	Status   string `json:"status"` // known | fixed
-	Commit   string `json:"commit,omitempty"`
-	What     string `json:"what"`
-	Witness  string `json:"witness,omitempty"`
+	// Match, when set, is a regular expression a finding's key may match instead of being equal to Key: the same
+	// defect seen through a behaviour-preserving move of the call site (the parser function renamed, the mutating call
+	// moved into a helper of the same package). It names the same construct, not a wider class.
+	Match   string `json:"match,omitempty"`
+	Status  string `json:"status"` // known | fixed
+	Commit  string `json:"commit,omitempty"`
+	What    string `json:"what"`
+	Witness string `json:"witness,omitempty"`
 }
 
 func LoadKnown(path string) ([]Known, error) {
@@ -213,8 +218,21 @@ func Emit(verifDir string, meta Meta, tier string, seed int, results []*Result, 
 	}
 	nviol := 0
 	var knownHit []string
+	lookupKnown := func(key string) (Known, bool) {
+		if k, ok := knownByKey[key]; ok {
+			return k, true
+		}
+		for _, k := range knownByKey {
+			if k.Match != "" {
+				if re, err := regexp.Compile(k.Match); err == nil && re.MatchString(key) {
+					return k, true
+				}
+			}
+		}
+		return Known{}, false
+	}
 	for i, f := range all {
-		if k, ok := knownByKey[f.Key]; ok && f.Kind == "violation" {
+		if k, ok := lookupKnown(f.Key); ok && f.Kind == "violation" {
 			fmt.Printf("KNOWN-FINDING: property=%s %s [%s at %s] %s\n", meta.ID, k.What, f.Func, f.Pos, f.Key)
 			knownHit = append(knownHit, f.Key)
 			continue
